@@ -74,6 +74,9 @@ class Model(flow.Actor):
         rows = [tuple(r) for r in features]
         out = []
         for r in rows:
+            if int(r[1]) == POISON:
+                import forml
+                raise forml.InvalidError(f'request {int(r[0])} cannot be processed')
             time.sleep(int(r[1]) / 1000.0)
             _trace('exec', rid=int(r[0]), stamp=self.stamp)
             out.append((int(r[0]), self.stamp))
@@ -85,6 +88,23 @@ class Model(flow.Actor):
     def set_state(self, state):
         if state:
             self.stamp = json.loads(state.decode())
+
+
+POISON = 777
+
+
+class Echo(flow.Actor):
+    """Stateless branch answering the request id of every row."""
+
+    def apply(self, features):
+        return [int(tuple(r)[0]) for r in features]
+
+
+class Join(flow.Actor):
+    """Reducer of the three branches: (rid seen by the first branch, rid and stamp of the model, rid of the third)."""
+
+    def apply(self, first, model, third):
+        return [(a, b[0], b[1], c) for a, b, c in zip(first, model, third)]
 
 
 class Desc(appmod.Descriptor):
@@ -129,9 +149,11 @@ from harness import serving
 project.setup(project.Source.query(serving.T.select(serving.T.rid, serving.T.delay), serving.T.y))
 '''
 PIPELINE_PY = '''from forml import project
-from forml.pipeline import wrap
+from forml.pipeline import payload
 from harness import serving
-project.setup(wrap.Operator.apply(serving.Model)())
+# the source output fans out to three branches (the middle one is the stateful model), re-joined by the reducer
+project.setup(payload.MapReduce(serving.Echo.builder(), serving.Model.builder(), serving.Echo.builder(),
+                                reducer=serving.Join.builder()))
 '''
 
 
